@@ -42,8 +42,9 @@ Oracle (written from the statement):
                    when that event has been dispatched).
   mpf_crash        an exception reaches the loop's exception handler.
 
-Depends on proposed fixes C07-1 .. C07-7 and on C02-queue-task-loses-callback / C02-mode-start-forwards-queue (the latter is
-also recorded as known finding C07-F-C02-wait-queue-start-hangs); without them the check reports genuine violations.
+Clean on /repo 9e48a14 + proposed_fixes/C07-1, -3, -4, -5, -6, -7 (C07-2 and C02's two queue-event repairs are already in
+/repo); without them the check reports the genuine violations described in those files (replays/C07-finding-*.json).
+Recorded, not repaired: known_findings.d/C07.json (delayed event_player entries outlive their mode).
 """
 import re
 from functools import partial
@@ -53,7 +54,7 @@ from checks import _c07_helpers as H
 
 ID = "C07"
 LEVEL = "exploration"
-RUNS = {"quick": 1500, "thorough": 60000}
+RUNS = {"quick": 1500, "thorough": 36000}
 WALL_CAP = {"quick": 150, "thorough": 3000}
 RULE = ("one case = one generated history (3-45 operations, 0-4 hooks on lifecycle events with scripted reactions) of "
         "start/stop requests over 8 modes, driven through the real Mode/ModeController/ConfigPlayer code under a seeded "
@@ -713,8 +714,7 @@ def execute(ctx, plan):
 
     def checkpoint(final=False):
         ctx.log("checkpoint", final, t=now())
-        for hid in sorted(holds.keys()):
-            pass    # holds clear themselves at their scheduled times
+        # holds clear themselves at their scheduled times
         if not settle("checkpoint"):
             return
         rounds = 0
